@@ -33,6 +33,8 @@ def value_of(keys, lab, sparse=False):
         code = code * 4 + POOL[k][2].index(it) + 1
     if sparse and code % 3 == 0:
         return 0.0
+    if sparse and code % 3 == 1:
+        return float(f"{code}e-11")  # tiny but NOT zero (short decimal: exact through CSV text)
     return 100.5 + code * 1.25
 
 
@@ -142,6 +144,9 @@ def build_frame(keys, recs, layout):
             df.index = pd.Index(arrays[0], name=inames[0])
         else:
             df.index = pd.MultiIndex.from_arrays(arrays, names=inames)
+    elif layout.get("rowindex") == "repeat" and len(df) > 1:
+        # an unnamed integer row index with REPEATED labels (e.g. pieces concatenated without ignore_index)
+        df.index = pd.Index([i % 2 for i in range(len(df))], dtype="int64")
     final_roles = [cols[i][0] for i in idx_pos] + [cols[i][0] for i in other_pos]
     seen_val = False
     vbd = False
